@@ -16,10 +16,10 @@ ASSUMPTIONS = ["tangential terminal roots (|dg/dt| < 5% of scale) and runs whose
                "continuations use no events or a different, later terminal event (re-arming the same event at its own root is not specified by the property)"]
 FLOORS = {"quick": {"terminal_landings": 50, "landings_backward": 15, "landings_with_substeps": 30, "continuations_checked": 45, "infinite_target_runs": 8,
                     "dense_checked_after_stop": 15, "second_terminal_stops": 5, "close_pair_cases": 25,
-                    "landing_step_replay_steps": 60, "landings_far_from_time_origin": 8, "continuation_step_replay_steps": 40},
+                    "landing_step_replay_steps": 60, "landings_far_from_time_origin": 8, "landings_on_a_recorded_step_end": 30, "terminal_runs_after_an_earlier_failure": 16, "continuation_step_replay_steps": 40},
           "thorough": {"terminal_landings": 500, "landings_backward": 150, "landings_with_substeps": 300, "continuations_checked": 450, "infinite_target_runs": 50,
                        "dense_checked_after_stop": 180, "second_terminal_stops": 40, "close_pair_cases": 180,
-                       "landing_step_replay_steps": 600, "landings_far_from_time_origin": 40, "continuation_step_replay_steps": 400}}
+                       "landing_step_replay_steps": 600, "landings_far_from_time_origin": 40, "landings_on_a_recorded_step_end": 100, "terminal_runs_after_an_earlier_failure": 16, "continuation_step_replay_steps": 400}}
 QUICK_METHODS = ["RK45CKSolver", "DOPRI45", "RK4Solver", "RK8713MSolver", "ABAs5o6HSolver", "RadauIIA5", "GaussLegendre4", "RK5Solver", "LobattoIIIC4", "RK108Solver"]
 CASE_TIMEOUT = 900
 K = 10.0
@@ -57,6 +57,24 @@ def gen_cases(tier, seed):
                 t0 = float(rng.uniform(-4, 4))
                 cases.append(dict(method=name, direction=d, dense=bool(rng.random() < 0.5), t0=t0, tf=t0 + d * L, nsteps=float(rng.uniform(12, 30)), nterm=1, nnon=2, inf=False,
                                   cont="plain", close_pair=True, pseed=int(rng.integers(1 << 30)), cost=(2 if M[name]["explicit"] else 14)))
+    # a terminal TIME event whose root is bit-identical to a recorded step end of a fixed-step run with a non-dyadic step (dt = span/n): the
+    # detection locates it exactly on the boundary of its step, where every closed-interval test is one rounding away from failing
+    fixed = [n for n in names if not M[n]["adaptive"] and M[n]["explicit"]] or ["RK4Solver"]
+    for name in (fixed if tier == "thorough" else fixed[:3] + ["RK4Solver"]):
+        for d in (1, -1):
+            for r in range(6 if tier == "quick" else 12):
+                t0 = float(rng.choice([0.0, 0.0, float(rng.uniform(-2, 2))]))
+                cases.append(dict(method=name, direction=d, dense=bool(rng.random() < 0.5), t0=t0, tf=t0 + d * 3.0, nsteps=30.0, nterm=1, nnon=0, inf=False, cont="plain",
+                                  grid_terminal=int(rng.integers(2, 28)), pseed=int(rng.integers(1 << 30)), cost=3))
+    # the terminal run FOLLOWS an earlier call on the same system that ended in a failure (a raising right-hand side or a KeyboardInterrupt from a
+    # callback): the stop must still report "terminated by event" as a success
+    for name in names[:6]:
+        for d in (1, -1):
+            for fk in ("rhs_fault", "keyboard_interrupt"):
+                L = float(rng.uniform(3.0, 6.0))
+                t0 = float(rng.uniform(-4, 4))
+                cases.append(dict(method=name, direction=d, dense=bool(rng.random() < 0.5), t0=t0, tf=t0 + d * L, nsteps=float(rng.uniform(20, 50)), nterm=1, nnon=1, inf=False,
+                                  cont="plain", after_failure=fk, pseed=int(rng.integers(1 << 30)), cost=(3 if M[name]["explicit"] else 16)))
     return cases
 
 
@@ -82,6 +100,13 @@ def run_case(spec):
         tspecs = [{"kind": "time", "scale": float(10 ** rng.uniform(-2, 2)) * float(rng.choice([-1, 1])), "c": tcp, "direction": 0, "terminal": True}]
         nspecs = [{"kind": "time", "scale": float(10 ** rng.uniform(-2, 2)) * float(rng.choice([-1, 1])), "c": tcp + delta, "direction": 0, "terminal": False},
                   {"kind": "time", "scale": float(10 ** rng.uniform(-2, 2)), "c": tcp - 0.5 * delta, "direction": 0, "terminal": False}]
+    if spec.get("grid_terminal"):
+        # reference run without events: the k-th recorded time is the level of the terminal time event
+        ref_ = sysrun.make_system(lambda t, y, **kw: prob.rhs(t, y), prob.ystar(t0).astype(np.float64), t0, tf, abs(tf - t0) / spec["nsteps"], info["cls"])
+        sysrun.call_integrate(ref_, max_steps=2000)
+        k_ = min(int(spec["grid_terminal"]), len(ref_) - 2)
+        tspecs = [{"kind": "time", "scale": float(10 ** rng.uniform(-2, 2)) * float(rng.choice([-1, 1])), "c": float(ref_.t[k_]), "direction": 0, "terminal": True}]
+        nspecs = []
     if spec["inf"]:
         # an indefinite run needs a terminal event that certainly fires
         tspecs.append({"kind": "time", "scale": float(10 ** rng.uniform(-3, 3)), "c": t0 + 0.9 * (tf - t0), "direction": 0, "terminal": True})
@@ -105,6 +130,31 @@ def run_case(spec):
     system = sysrun.make_system(f, y0, t0, tf, dt_.type(L / spec["nsteps"]), info["cls"], dense=spec["dense"], rtol=rt_, atol=rt_ * 1e-2)
     target = (np.inf * d) if spec["inf"] else None
     import warnings
+    if spec.get("after_failure"):
+        # an earlier call over the first 15% of the span ends in a failure; the system is NOT reset
+        st_ = {"n": 0, "armed": True}
+        f_orig = f
+
+        class _Boom(Exception):
+            pass
+        if spec["after_failure"] == "rhs_fault":
+            def f_faulty(t, y, **kw):
+                st_["n"] += 1
+                if st_["armed"] and st_["n"] == 25:
+                    raise _Boom("injected")
+                return f_orig(t, y)
+            system = sysrun.make_system(f_faulty, y0, t0, tf, dt_.type(L / spec["nsteps"]), info["cls"], dense=spec["dense"], rtol=rt_, atol=rt_ * 1e-2)
+            pre = sysrun.call_integrate(system, t=t0 + 0.15 * (tf - t0), max_steps=20000)
+        else:
+            def kb(s_):
+                if st_["armed"] and len(s_) >= 3:
+                    raise KeyboardInterrupt()
+            pre = sysrun.call_integrate(system, t=t0 + 0.15 * (tf - t0), callback=kb, max_steps=20000)
+        st_["armed"] = False
+        if pre["raised"]:
+            rec.bump("terminal_runs_after_an_earlier_failure")
+        feats["after_failure"] = spec["after_failure"]
+    t_start = float(system.t[-1])      # (after an earlier, failed call the terminal run starts later than t0: only what lies ahead of it can fire)
     trace = DetectionTrace()
     try:
         with warnings.catch_warnings():
@@ -132,9 +182,9 @@ def run_case(spec):
     for j, ev in enumerate(events):
         if not ev.is_terminal:
             continue
-        roots, gmax = true_roots(ev, prob, t0, t_end_search, n=6000)
+        roots, gmax = true_roots(ev, prob, t_start, t_end_search, n=6000)
         for i, (tr_, gd_) in enumerate(roots):
-            if abs(tr_ - t0) < 1e-9 * L:
+            if abs(tr_ - t_start) < 1e-9 * L:
                 continue
             if ev.direction != 0 and ((gd_ * d) > 0) != (ev.direction > 0):
                 continue
@@ -174,6 +224,8 @@ def run_case(spec):
         rec.violate("terminal_not_stopped", "status_not_terminated_by_event", feats, status=system.integration_status, t_last=float(t[-1]), expected=tr, event=evT.spec)
         return rec.out()
     rec.bump("terminal_landings")
+    if spec.get("grid_terminal"):
+        rec.bump("landings_on_a_recorded_step_end")
     if spec.get("dtype", "float64") != "float64":
         rec.bump("landings_in_" + spec["dtype"])
     if abs(t0) > 20:
